@@ -23,6 +23,9 @@ class Engine(StmtMixin, CallMixin, ExprMixin, EngineBase):
         for name, (asorts, ret) in self.m.defs.items():
             c.fun(name, asorts, ret)
             c.predefined.add(name)
+        if getattr(self.m, "declare_stable", False):
+            for a, so in self.m.stable.items():
+                c.fun(f"sattr_{a}", [REF], so)
         c.user_defs = self.m.defs_text
         c.predeclared_opts = list(self.m.predeclared_opts)
         return c
@@ -82,6 +85,7 @@ class Engine(StmtMixin, CallMixin, ExprMixin, EngineBase):
                 outcomes["return"] += 1
                 self.post_normal(short, k, st, res, fn)
                 normal_returns.append((self.ctx, list(st.pc)))
+                self.return_paths.setdefault(short, []).append((self.ctx, list(st.pc), st.env.get("$result"), self.entry))
             except RaiseEx as r:
                 outcomes["raise"] += 1
                 self.post_raise(short, k, st, r, fn)
